@@ -662,16 +662,16 @@ func main() {
 	g := r.Rng
 	gen := newGen(g)
 	// oracle-checked (expensive: the Lean reference does ≈40 ms per scalar multiplication)
-	for i := 0; i < r.N(150, 3000); i++ {
+	for i := 0; i < r.N(90, 2000); i++ {
 		cases = append(cases, gen.ecdsa(true))
 	}
-	for i := 0; i < r.N(90, 2000); i++ {
+	for i := 0; i < r.N(60, 1200); i++ {
 		cases = append(cases, gen.schnorr(true))
 	}
-	for i := 0; i < r.N(90, 2000); i++ {
+	for i := 0; i < r.N(60, 1200); i++ {
 		cases = append(cases, gen.tweak(true))
 	}
-	for i := 0; i < r.N(20, 400); i++ {
+	for i := 0; i < r.N(14, 400); i++ {
 		cases = append(cases, gen.sign(true))
 	}
 	for i := 0; i < r.N(10, 200); i++ {
@@ -683,10 +683,10 @@ func main() {
 	for i := 0; i < r.N(8, 200); i++ {
 		cases = append(cases, gen.ssign(true))
 	}
-	for i := 0; i < r.N(300, 5000); i++ {
+	for i := 0; i < r.N(200, 5000); i++ {
 		cases = append(cases, gen.pub(true))
 	}
-	for i := 0; i < r.N(1500, 15000); i++ {
+	for i := 0; i < r.N(800, 15000); i++ {
 		cases = append(cases, gen.psig(true))
 	}
 	for i := 0; i < r.N(60, 600); i++ {
@@ -696,16 +696,16 @@ func main() {
 		cases = append(cases, gen.hmac(true))
 	}
 	// real vs reference only (cheap): the property's own predicate on many more inputs
-	for i := 0; i < r.N(3000, 60000); i++ {
+	for i := 0; i < r.N(2000, 60000); i++ {
 		cases = append(cases, gen.ecdsa(false))
 	}
-	for i := 0; i < r.N(2000, 40000); i++ {
+	for i := 0; i < r.N(1200, 40000); i++ {
 		cases = append(cases, gen.schnorr(false))
 	}
-	for i := 0; i < r.N(2000, 40000); i++ {
+	for i := 0; i < r.N(1200, 40000); i++ {
 		cases = append(cases, gen.tweak(false))
 	}
-	for i := 0; i < r.N(150, 3000); i++ {
+	for i := 0; i < r.N(100, 3000); i++ {
 		cases = append(cases, gen.sign(false))
 	}
 	for i := 0; i < r.N(100, 1500); i++ {
